@@ -253,6 +253,17 @@ class C12(runner.Check):
 		r = S("workload")
 		world = gen_world(r, leg)
 		case = {"leg": leg, "seed": seed, "world": world}
+		# a second scan in the same process: same motif names and widths, other
+		# probabilities and/or pseudocount (nothing may be carried over)
+		if r.chance(0.6):
+			w2 = copy.deepcopy(world)
+			mode = r.choice(["pwm", "eps", "both"])
+			if mode in ("pwm", "both"):
+				for m in w2["motifs"]:
+					m["pwm"] = gen_pwm(r, len(m["pwm"][0]))
+			if mode in ("eps", "both"):
+				w2["cfg"]["eps"] = 1e-2 if world["cfg"]["eps"] != 1e-2 else 1e-4
+			case["world2"] = w2
 		s = S("schedule")
 		if leg == "sim":
 			plans = []
@@ -320,8 +331,12 @@ class C12(runner.Check):
 			elif not (abs(score - want) <= 1e-9 * max(1.0, abs(want))):
 				msg = "score %.12g, reference %.12g" % (score, want)
 			else:
-				b0 = int(want / oracle.cfg["bin_size"]) - t["smallest"]
-				cands = [b for b in (b0 - 1, b0, b0 + 1) if 0 <= b < len(t["table"])]
+				q = want / oracle.cfg["bin_size"]
+				b0 = int(q) - t["smallest"]
+				cands = [b0]
+				if abs(q - round(q)) < 1e-7 * max(1.0, abs(q)):
+					cands = [b0 - 1, b0, b0 + 1]       # score on a bin boundary
+				cands = [b for b in cands if 0 <= b < len(t["table"])]
 				vals = [2.0 ** t["table"][b] for b in cands]
 				if numpy.isnan(p):
 					msg = "p-value is NaN (table entries of its score bin: %r), so it is " \
@@ -431,6 +446,23 @@ class C12(runner.Check):
 						cfg["reverse_complement"], type(e).__name__, str(e)[:200]),
 						key={"exc": type(e).__name__, "rc": cfg["reverse_complement"]})
 					break
+		if case.get("world2") and not out.violations and not out.skipped:
+			w2 = case["world2"]
+			plan = case["plans"][0]
+			try:
+				sim, res = self._sim_fimo(plan, motifs=self._motif_dict(w2), sequences=X,
+					**w2["cfg"])
+				got2, dup = hits_to_set(res)
+				log.log("second", sorted(got2.items()))
+				out.bump("probe.second_scan_same_names_other_values")
+				self._compare_with_oracle(out, Oracle(self.fm, w2), got2, "second scan in "
+					"the same process (same motif names/widths, other probabilities/eps)",
+					seq_lens)
+			except SimAbort:
+				pass
+			except Exception as e:
+				out.violate("raised", "second scan raised %s: %s" % (type(e).__name__,
+					str(e)[:200]), key=type(e).__name__)
 		out.nontrivial = bool(first)
 		out.digest = log.digest()
 		out.sample = {"leg": "sim", "seed": case.get("seed"), "motif_widths":
@@ -525,6 +557,21 @@ class C12(runner.Check):
 			if first is not None and not out.violations:
 				self._real_variants(out, case, world, cfg, md, fa, mm, names, first,
 					seq_lens, log)
+			if case.get("world2") and not out.violations:
+				w2 = case["world2"]
+				genome.write_meme(mm, [(m["name"], m["pwm"]) for m in w2["motifs"]])
+				try:
+					with numpy.errstate(all="ignore"):
+						res = self.fm.fimo(mm, fa, **w2["cfg"])
+					got2, dup = hits_to_set(res, names)
+					log.log("second", sorted(got2.items()))
+					out.bump("probe.second_scan_same_names_other_values")
+					self._compare_with_oracle(out, Oracle(self.fm, w2), got2, "second scan "
+						"in the same process (same motif names/widths, other probabilities/"
+						"eps)", seq_lens)
+				except Exception as e:
+					out.violate("raised", "second scan raised %s: %s" % (type(e).__name__,
+						str(e)[:200]), key=type(e).__name__)
 		finally:
 			numba.set_num_threads(nthreads0)
 			for p in (fa, fa + ".fai", mm):
